@@ -295,6 +295,25 @@ NEGATIVE = [
     ("vec_sent_to_thread", """
     let a = Bump::new(); let v = Vec::<u8>::new_in(&a);
     std::thread::scope(|s| { s.spawn(move || { touch(&v); }); });"""),
+    # objects that allocate from (or otherwise touch) the arena when used or dropped must not reach
+    # another thread while the owner can still use the arena
+    ("splice_dropped_on_another_thread", """
+    let a = Bump::new(); let mut v = bumpalo::vec![in &a; 1u8, 2, 3];
+    let sp = v.splice(0..1, std::vec![4u8, 5, 6]);
+    std::thread::scope(|s| { s.spawn(move || drop(sp)); touch(a.alloc(1u8)); });"""),
+    ("drain_filter_on_another_thread", """
+    let a = Bump::new(); let mut v = bumpalo::vec![in &a; 1u8, 2, 3];
+    let d = v.drain_filter(|x| *x > 1);
+    std::thread::scope(|s| { s.spawn(move || drop(d)); touch(a.alloc(1u8)); });"""),
+    ("vec_mut_ref_on_another_thread", """
+    let a = Bump::new(); let mut v = bumpalo::vec![in &a; 1u8, 2, 3]; let r = &mut v;
+    std::thread::scope(|s| { s.spawn(move || r.push(4)); touch(a.alloc(1u8)); });"""),
+    ("string_mut_ref_on_another_thread", """
+    let a = Bump::new(); let mut v = BString::from_str_in("x", &a); let r = &mut v;
+    std::thread::scope(|s| { s.spawn(move || r.push('y')); touch(a.alloc(1u8)); });"""),
+    ("vec_shared_ref_cloned_on_another_thread", """
+    let a = Bump::new(); let v = bumpalo::vec![in &a; 1u8, 2, 3]; let r = &v;
+    std::thread::scope(|s| { s.spawn(move || { let c = r.clone(); touch(&c); }); touch(a.alloc(1u8)); });"""),
     ("arena_moved_while_borrowed", """
     let a = Bump::new(); let x = a.alloc(1u8); let b = a; touch(&x); touch(&b);"""),
     ("arena_moved_into_box_while_borrowed", """
